@@ -253,7 +253,7 @@ def refusal_session(kind, k, exc, delay):
         # long enough for k capped waits
         await asyncio.sleep(20 + 61.0 * k)
         await sim.call("close")
-    return simgw.run_session(kind, scenario, max_steps=400_000)
+    return simgw.run_session(kind, scenario, max_steps=400_000 + 2000 * k)
 
 
 def check_backoff(sim, stats, acc, kind, k, exc):
@@ -468,7 +468,8 @@ def run_shard(spec, acc):
     rng = gen.rng_for(spec["seed"], ID, spec["name"])
     if spec["what"] == "refusals":
         errs = refusal_errors(kind)
-        ks = [0, 1, 2, 3, 4, 5, 8, 13, 30] if quick else list(range(0, 31))
+        # "for as long as needed": up to an outage of three virtual hours (1100 refused attempts; 2600 in the thorough tier)
+        ks = [0, 1, 2, 3, 4, 5, 8, 13, 30, 1100] if quick else list(range(0, 31)) + [300, 1100, 2600]
         for k in ks:
             for j, exc in enumerate(errs):
                 if quick and k > 5 and j != k % len(errs):
